@@ -9,6 +9,7 @@ Directives (each on its own line, inside a template `.rs` file):
   //@hints <generator> k=v ...   (optional, repeatable) proof text generated from the extracted body
   //@sub OLD =====> NEW     (optional, repeatable) exact-text substitution inside the body; OLD must occur exactly
                          once (used to annotate a closure with its `ensures`, or to name a std constant); recorded in evidence
+  //@subblock OLD / lines / //@endsub    the same with a multi-line replacement
   //@tailproof           (optional)   following lines are placed in a proof block before the result is returned
   //@end
 
@@ -295,6 +296,14 @@ def generate(template_path, src_root, out_path, vacuity=False):
                 elif s2.startswith('//@hints'):
                     toks = s2[len('//@hints'):].strip().split(None, 1)
                     hint_specs.append((toks[0], parse_kv(toks[1] if len(toks) > 1 else '')))
+                elif s2.startswith('//@subblock '):
+                    a_ = s2[len('//@subblock '):].strip()
+                    buf_ = []
+                    i += 1
+                    while lines[i].strip() != '//@endsub':
+                        buf_.append(lines[i])
+                        i += 1
+                    d.setdefault('_subs', []).append((a_, '\n'.join(buf_)))
                 elif s2.startswith('//@sub '):
                     a_, b_ = s2[len('//@sub '):].split(' =====> ')
                     d.setdefault('_subs', []).append((a_.strip(), b_.strip()))
